@@ -35,6 +35,15 @@ class PathInfeasible(Exception):
     pass
 
 
+class _Counter:
+    def __init__(self):
+        self.n = 0
+
+    def __next__(self):
+        self.n += 1
+        return self.n - 1
+
+
 class PathCtx:
     """state of one execution path"""
 
@@ -44,7 +53,7 @@ class PathCtx:
         self.pc = []  # list of (z3 Bool, lineno)
         self.hyps = list(hyps)  # requires + axiom instances
         self.axioms = []  # (name, z3 Bool) instances added by theory functions
-        self.counter = itertools.count()
+        self.counter = _Counter()
         self.obligations = []  # in-path obligations (safe / pre@callsite / index-space): (name, goal, meta)
         self.sites = {}  # named add-sites for generic-iteration loops
         self.dropped = []  # (lineno, text) of statements/calls dropped by the interpreter
